@@ -40,6 +40,15 @@ proof fn lemma_mwd_exists(y: int, m: int, w: int, wd: int)
     assert(is_mwd_day(y, m, w, wd, d));
 }
 
+proof fn lemma_mod7_same(a: int, k: int)
+    requires
+        a % 7 == (a + k) % 7,
+        -7 < k < 7,
+    ensures
+        k == 0,
+{
+}
+
 // uniqueness: two days of the same month in the same 7-day window with the same weekday are equal
 proof fn lemma_mwd_unique(y: int, m: int, w: int, wd: int, d1: int, d2: int)
     requires
@@ -48,8 +57,13 @@ proof fn lemma_mwd_unique(y: int, m: int, w: int, wd: int, d1: int, d2: int)
     ensures
         d1 == d2,
 {
-    assert(days_civil(y, m, d2) == days_civil(y, m, d1) + (d2 - d1));
+    hide(dby);
+    hide(cum);
+    let n1 = days_civil(y, m, d1);
+    assert(days_civil(y, m, d2) == n1 + (d2 - d1));
     assert(-7 < d2 - d1 < 7);
+    assert((4 + n1) % 7 == (4 + n1 + (d2 - d1)) % 7);
+    lemma_mod7_same(4 + n1, d2 - d1);
 }
 
 proof fn lemma_mwd_is(y: int, m: int, w: int, wd: int, d: int)
